@@ -102,7 +102,14 @@ def calls_for(ovset):
         for a in plain[:4]:
             for b in plain[4:]:
                 out.append((a, b))
-    return out
+    # every argument tuple in three call styles: positional, all by keyword (every overload names its parameters x, y), first positional + second by keyword
+    styled = []
+    for c in out:
+        styled.append((c, "pos"))
+        styled.append((c, "kw"))
+        if len(c) == 2:
+            styled.append((c, "mix"))
+    return styled
 
 
 def bounds(tier):
@@ -142,8 +149,13 @@ def _module(ovset, calls):
     lines.append("def f(x: object = None, y: object = None) -> object: return x")
     ats = arg_types()
     lines.append("def run(%s) -> None:" % ", ".join("a%d: %s" % (j, t) for j, t in enumerate(ats)))
-    for c in calls:
-        lines.append("    reveal_type(f(%s))" % ", ".join("a%d" % ats.index(t) for t in c))
+    for c, style in calls:
+        names = ["a%d" % ats.index(t) for t in c]
+        if style == "kw":
+            names = ["%s=%s" % ("xy"[j], n) for j, n in enumerate(names)]
+        elif style == "mix":
+            names = [names[0], "y=" + names[1]]
+        lines.append("    reveal_type(f(%s))" % ", ".join(names))
     return "\n".join(lines) + "\n"
 
 
@@ -160,7 +172,7 @@ def _run(res, tier, sets, base, only_call=None):
     for si, ovset in enumerate(sets):
         calls = calls_for(ovset)
         if only_call is not None:
-            calls = [tuple(only_call)]
+            calls = [(tuple(only_call[0]), only_call[1])]
         src = _module(ovset, calls)
         fails = check(src)
         res.transitions += 1
@@ -168,7 +180,7 @@ def _run(res, tier, sets, base, only_call=None):
         by = {}
         for f in fails:
             by.setdefault(f.get("lineno"), []).append((f["code"].name, f.get("description", "")))
-        for ci, c in enumerate(calls):
+        for ci, (c, style) in enumerate(calls):
             res.states += 1
             order = (base + si) * 1000 + ci
             d = by.get(first_line + ci, [])
@@ -178,19 +190,19 @@ def _run(res, tier, sets, base, only_call=None):
             got = set(re.findall(r"\bR(\d)\b", revealed))
             is_any = "Any[" in revealed
             diagnosed = bool(err)
-            case = {"ovset": [[list(ps), dflt] for ps, dflt in ovset], "call": list(c), "order": order}
-            desc = "%s; call f(%s)" % (_desc(ovset), ", ".join(c))
+            case = {"ovset": [[list(ps), dflt] for ps, dflt in ovset], "call": list(c), "style": style, "order": order}
+            desc = "%s; call f(%s)%s" % (_desc(ovset), ", ".join(c), {"pos": "", "kw": " with every argument passed by keyword", "mix": " with the second argument passed by keyword"}[style])
             special = [a for a in c if a == "Any" or len(members(a)) > 1]
             res.validated += 1
             if not special:
                 k = _first(ovset, c)
                 res.outcomes["plain:%s/%s" % ("match" if k is not None else "nomatch", "diagnosed" if diagnosed else "accepted")] += 1
                 if (k is None) != diagnosed:
-                    res.violation({"clause": "1-verdict", "kind": "missed" if k is None else "false-alarm", "shape": _shape(ovset)}, case,
+                    res.violation({"clause": "1-verdict", "kind": "missed" if k is None else "false-alarm", "shape": _shape(ovset), "style": style}, case,
                                   "%s: %s but pyanalyze %s" % (desc, "no overload accepts the arguments" if k is None else "overload %d accepts the arguments" % k,
                                                                ("reports " + err[0][1].split("\n")[0][:100]) if diagnosed else "accepts"))
                 elif k is not None and got != {str(k)}:
-                    res.violation({"clause": "1-first-match", "shape": _shape(ovset), "args": ",".join("u" if len(members(a)) > 1 else "p" for a in c)}, case,
+                    res.violation({"clause": "1-first-match", "shape": _shape(ovset), "style": style, "args": ",".join("u" if len(members(a)) > 1 else "p" for a in c)}, case,
                                   "%s: first accepting overload is %d but the call is typed %s" % (desc, k, revealed))
             elif special[0] != "Any":
                 pos = c.index(special[0])
@@ -202,12 +214,12 @@ def _run(res, tier, sets, base, only_call=None):
                 expect_err = any(f is None for f in firsts)
                 res.outcomes["union:%s/%s" % ("all-members-match" if not expect_err else "some-member-unmatched", "diagnosed" if diagnosed else "accepted")] += 1
                 if expect_err != diagnosed:
-                    res.violation({"clause": "2-union-verdict", "kind": "missed" if expect_err else "false-alarm", "shape": _shape(ovset), "upos": str(pos)}, case,
+                    res.violation({"clause": "2-union-verdict", "kind": "missed" if expect_err else "false-alarm", "shape": _shape(ovset), "style": style, "upos": str(pos)}, case,
                                   "%s: members resolve to %s but pyanalyze %s" % (desc, firsts, ("reports " + err[0][1].split("\n")[0][:100]) if diagnosed else "accepts (typed %s)" % revealed))
                 elif not expect_err and not is_any:
                     want = {str(f) for f in firsts}
                     if not want <= got:
-                        res.violation({"clause": "2-union-result", "shape": _shape(ovset), "upos": str(pos)}, case,
+                        res.violation({"clause": "2-union-result", "shape": _shape(ovset), "style": style, "upos": str(pos)}, case,
                                       "%s: members resolve to overloads %s but the call is typed %s" % (desc, sorted(want), revealed))
             else:
                 pos = c.index("Any")
@@ -220,20 +232,20 @@ def _run(res, tier, sets, base, only_call=None):
                 res.outcomes["any:%d-matching/%s" % (len(matching), "diagnosed" if diagnosed else "accepted")] += 1
                 if not matching:
                     if not diagnosed:
-                        res.violation({"clause": "3-any-verdict", "kind": "missed", "shape": _shape(ovset)}, case, "%s: no overload can accept the call, pyanalyze accepts (typed %s)" % (desc, revealed))
+                        res.violation({"clause": "3-any-verdict", "kind": "missed", "shape": _shape(ovset), "style": style}, case, "%s: no overload can accept the call, pyanalyze accepts (typed %s)" % (desc, revealed))
                     continue
                 if diagnosed:
-                    res.violation({"clause": "3-any-verdict", "kind": "false-alarm", "shape": _shape(ovset)}, case,
+                    res.violation({"clause": "3-any-verdict", "kind": "false-alarm", "shape": _shape(ovset), "style": style}, case,
                                   "%s: overloads %s accept an Any argument but pyanalyze reports %s" % (desc, [m[0] for m in matching], err[0][1].split("\n")[0][:100]))
                     continue
                 k, clean = matching[0]
                 if clean:
                     if got != {str(k)} and not is_any:
-                        res.violation({"clause": "3-any-clean-first", "shape": _shape(ovset)}, case, "%s: overload %d matches Any cleanly first, call typed %s" % (desc, k, revealed))
+                        res.violation({"clause": "3-any-clean-first", "shape": _shape(ovset), "style": style}, case, "%s: overload %d matches Any cleanly first, call typed %s" % (desc, k, revealed))
                 else:
                     later_other = [i for i, _ in matching[1:] if i != k]
                     if later_other and not is_any and len(got) == 1:
-                        res.violation({"clause": "3-any-selects-one", "shape": _shape(ovset), "later_clean": str(int(any(cl for _, cl in matching[1:])))}, case,
+                        res.violation({"clause": "3-any-selects-one", "shape": _shape(ovset), "style": style, "later_clean": str(int(any(cl for _, cl in matching[1:])))}, case,
                                       "%s: overloads %s all match the Any argument (the first only because of Any) but the call is typed %s, a single overload's return type"
                                       % (desc, [m[0] for m in matching], revealed))
             if order % 7919 == 0:
@@ -251,7 +263,7 @@ def run_unit(unit):
 def replay(case):
     res = UnitResult()
     ovset = tuple((tuple(ps), d) for ps, d in case["ovset"])
-    _run(res, "quick", [ovset], case.get("order", 0) // 1000, only_call=case["call"])
+    _run(res, "quick", [ovset], case.get("order", 0) // 1000, only_call=(case["call"], case.get("style", "pos")))
     return list(res.viol.values())
 
 
